@@ -270,7 +270,7 @@ def build(prog):
     """prog: dict(cls, steps, comp, ucons, lmis, metrics, part).  Returns Built with .pep and handles."""
     from PEPit import PEP, Point, Expression, PSDMatrix
     from PEPit.functions import ConvexFunction
-    from PEPit.primitive_steps import proximal_step, inexact_gradient_step
+    from PEPit.primitive_steps import proximal_step, inexact_gradient_step, exact_linesearch_step
     b = Built()
     pep = PEP()
     if prog.get("_on_pep"):
@@ -313,6 +313,11 @@ def build(prog):
                 x, _, _ = inexact_gradient_step(x, f + h, gamma=GAMMA, epsilon=.25, notion="relative")
                 import gc
                 gc.collect()
+            elif s == "l":
+                # exact line search along the current gradient: <g(x+), g(x)> = 0 is ONE inner product of two leaf points
+                x, _, _ = exact_linesearch_step(x, f, [f.gradient(x)])
+                if h is not None:
+                    x, _, _ = proximal_step(x, h, GAMMA)
             elif s in ("i", "I"):
                 x, _, _ = inexact_gradient_step(x, f, gamma=GAMMA, epsilon=.25, notion="relative")
                 if h is not None:
@@ -397,6 +402,9 @@ def build(prog):
             c = ((xx - x0_) ** 2 <= 7 / 8)
             pep.add_constraint(c)
             f.add_constraint(c)
+        elif code == "pS":          # an (active) condition written with large coefficients: 2^16 |x - x0|^2 <= 2^16 / 64
+            c = (65536 * (xx - x0_) ** 2 <= 1024)
+            pep.add_constraint(c)
         elif code == "pg":
             c = (2 * (xx * x0_) >= -7)          # 'greater than' written by the user, mirrored key shape
             pep.add_constraint(c)
@@ -422,6 +430,8 @@ def build(prog):
             b.held["u%d" % k] = u
         elif code == "S3":
             M = [[dd + 1, t, 0], [t, 1, 0], [0, 0, 1 + dd]]
+        elif code == "C2":      # a non-zero constant off the diagonal: (t + 1/2)^2 <= |x - x0|^2 + 1
+            M = [[dd + 1, t + 1 / 2], [t + 1 / 2, 1]]
         elif code == "V2":      # entries with function values carrying coefficients other than 1
             if kind in ("fun", "nsf") and "xs" in b.held:
                 M = [[2 * (Fsum(xx) - Fsum(b.held["xs"])) + 1, t], [t, 1]]
